@@ -250,6 +250,11 @@ func (f *defaultFactory) doCreateComponent(name string, meta *component_definiti
 }
 
 func (f *defaultFactory) populateComponent(name string, meta *component_definition.Meta) error {
+	//the post processors collect the candidates of every injection point anew on each creation attempt:
+	//what an earlier, failed attempt collected must not be injected a second time
+	for _, node := range meta.GetComponentProperties() {
+		node.Injects = nil
+	}
 	err := f.postProcessorRegistrationDelegate.ResolveAfterInstantiation(meta, name)
 	if err != nil {
 		return err
